@@ -191,8 +191,9 @@ def texts(tier, seed):
                 out.append("".join(t))
     for _ in range(3000 if tier == "quick" else 30000):
         out.append("".join(rnd.choice(LEXEMES) for _ in range(rnd.randint(3, 9))))
-    from contracts import docgrammar
+    from contracts import docgrammar, triggerdocs
     out.extend(docgrammar.documents(tier, seed))
+    out.extend(triggerdocs.trigger_documents(tier))
     return out
 
 
@@ -216,5 +217,5 @@ def run_passes(tier, seed, want=("c01", "c05", "c06")):
             "bound": f"all sequences of <= 2 lexemes over a {len(LEXEMES)}-lexeme alphabet (every scanner rule, extension tags, "
                      f"out-of-range entities, control / non-BMP characters, attribute triggers of the cleaner) "
                      f"{'+ length 3 over a reduced alphabet ' if tier != 'quick' else ''}+ seeded random sequences of 3..9 lexemes "
-                     f"+ documents of the C02 grammar; recursive templates behind the wikidb",
+                     f"+ documents of the C02 grammar + trigger documents (pass-enabling classes/ids/styles x table shapes x captions x preceding text; nested tables; blank inline siblings); recursive templates behind the wikidb",
             "failures": {w: list(f.values()) for w, f in failures.items()}, "samples": samples}
